@@ -454,6 +454,53 @@ fn main() {
         t
     });
 
+    // E11: very long numerals with ONE structural character (+ - . e _ and a digit) inserted at / substituted
+    // for EVERY position: a long digit string may be converted in pieces, and then every piece boundary is a
+    // place where a sign, a point or an underscore could be swallowed or mis-attributed
+    let e11_lens: Vec<usize> = tier.pick(vec![70, 300, 1030, 2100, 4100, 8300], vec![70, 300, 1030, 2100, 4100, 8300, 16500, 33000]);
+    let e11_chars: [u8; 6] = [b'+', b'-', b'.', b'e', b'_', b'7'];
+    let mut e11: Vec<(usize, usize)> = vec![]; // (length index, block of positions)
+    for (li, &l) in e11_lens.iter().enumerate() {
+        for blk in 0..=(l / 64) {
+            e11.push((li, blk));
+        }
+    }
+    run.bound("E11_lengths", json!(e11_lens));
+    run.par("E11 one structural character at every position of very long numerals", e11.len(), |bi| {
+        let (li, blk) = e11[bi];
+        let l = e11_lens[li];
+        let mut t = Tally::default();
+        let digits: Vec<u8> = (0..l).map(|i| b'1' + ((i * 7 + 3) % 9) as u8).collect();
+        for base_kind in 0..2 {
+            // plain digits; or digits with a point at one third
+            let mut base = digits.clone();
+            if base_kind == 1 {
+                base[l / 3] = b'.';
+            }
+            for pos in (blk * 64)..((blk + 1) * 64).min(l + 1) {
+                for &c in e11_chars.iter() {
+                    for subst in [false, true] {
+                        if subst && pos == l {
+                            continue;
+                        }
+                        let mut s: Vec<u8> = Vec::with_capacity(l + 1);
+                        s.extend_from_slice(&base[..pos]);
+                        s.push(c);
+                        s.extend_from_slice(&base[pos + subst as usize..]);
+                        t.states += 1;
+                        for e in ["from_str", "parse_bytes"] {
+                            t.transitions += 1;
+                            if let Some(v) = check(e, &s, 10) {
+                                run.report(v);
+                            }
+                        }
+                    }
+                }
+            }
+        }
+        t
+    });
+
     let radices = [0u32, 1, 2, 8, 9, 11, 16, 36, 37, u32::MAX];
     run.bound("E5_radices", json!(radices));
     run.par("E5 radix other than 10", gp.len(), |i| {
